@@ -138,6 +138,9 @@ var targets = []*target{
 
 var targetByName = map[string]*target{}
 
+// readerTargets: the targets the header grammar is driven through the reader dimension with.
+var readerTargets []*target
+
 // classOf maps a target to the coarse class that appears in signatures: fine
 // enough to tell defects apart, coarse enough that one defect in (say) the uint
 // codec does not yield one signature per integer width.
@@ -169,6 +172,9 @@ func init() {
 		targetByName[t.name] = t
 	}
 	initElemCtxs()
+	for _, n := range []string{"[]byte", "uint64", "*big.Int", "interface{}", "RawValue", "[]uint", "[][]byte", "tailS"} {
+		readerTargets = append(readerTargets, targetByName[n])
+	}
 }
 
 var slugRe = regexp.MustCompile(`[^a-z0-9]+`)
@@ -193,7 +199,7 @@ func errSlug(err error) string {
 // ------------------------------------------------------------------ helpers
 
 type kase struct {
-	Part  string `json:"part"` // decode | bytes | alloc | value | limit | stream-elem | stream-uint-list
+	Part  string `json:"part"` // decode | bytes | alloc | value | limit | stream-elem | stream-uint-list | reader
 	Type  string `json:"type,omitempty"`
 	In    string `json:"in,omitempty"` // packed bytes (hex with xx*N runs)
 	Deep  bool   `json:"deep,omitempty"`
@@ -203,6 +209,7 @@ type kase struct {
 	Seq   []int  `json:"seq,omitempty"`      // limit family: indices into limAlphabet
 	Limit int    `json:"limit,omitempty"`
 	Mode  int    `json:"mode,omitempty"`
+	Combo int    `json:"combo,omitempty"` // reader family: index into allCombos
 }
 
 type finding struct{ sig, part, msg string }
@@ -832,6 +839,8 @@ func execCase(k kase) []finding {
 		return checkAlloc(targetByName[k.Type], unpackBytes(k.In))
 	case "limit":
 		return checkLimit(k.Seq, k.Limit, k.Mode)
+	case "reader":
+		return checkReader(targetByName[k.Type], unpackBytes(k.In), k.Combo)
 	case "stream-elem":
 		return checkStreamElem(targetByName[k.Type], unpackBytes(k.In))
 	case "stream-uint-list":
@@ -922,6 +931,24 @@ func (r *runner) sentinel() {
 	}
 }
 
+// readers runs one (input, target) through the given reader combinations.
+func (r *runner) readers(t *target, in []byte, combos []int) {
+	for _, ci := range combos {
+		r.evals++
+		if fs := checkReader(t, in, ci); len(fs) > 0 {
+			in, ci := append([]byte{}, in...), ci
+			r.report(kase{Part: "reader", Type: t.name, In: packBytes(in), Combo: ci}, fs, func() []finding { return checkReader(t, in, ci) })
+		}
+	}
+}
+
+var everyCombo = func() (out []int) {
+	for i := range allCombos {
+		out = append(out, i)
+	}
+	return
+}()
+
 func run(c *fw.Ctx) {
 	c.ConcPart() // schedule companion (checks/c08/conc): results must not depend on the interleaving
 	limitMemory()
@@ -932,6 +959,7 @@ func run(c *fw.Ctx) {
 		c.Count("accepted_decodes", nAccepted)
 		c.Count("rejected_decodes", nRejected)
 		c.Count("dirty_destination_decodes", nDirty)
+		c.Count("reader_dimension_decodes", nReader)
 		keys := make([]string, 0, len(outcomeSeen))
 		for k := range outcomeSeen {
 			keys = append(keys, k)
@@ -969,6 +997,9 @@ func run(c *fw.Ctx) {
 				buf[i] = byte(x >> (8 * uint(n-1-i)))
 			}
 			r.input(buf, targets, true, false)
+			for _, t := range targets {
+				r.readers(t, buf, everyCombo)
+			}
 			nstr++
 		}
 		if r.expired() {
@@ -986,6 +1017,7 @@ func run(c *fw.Ctx) {
 			return true
 		}
 		r.input(in, []*target{t, targetByName["interface{}"], targetByName["RawValue"]}, true, false)
+		r.readers(t, in, diagCombos)
 		nf++
 		return !r.expired()
 	})
@@ -995,6 +1027,32 @@ func run(c *fw.Ctx) {
 	}
 	c.Count("field_substitution_inputs", nf)
 	phase("fields")
+
+	// (ii-b') reader behaviour: big payloads around the bufio buffer size and every truncation of the
+	// struct base encodings, through every reader combination
+	nr := int64(0)
+	forEachBigReaderInput(func(t *target, in []byte) bool {
+		if r.mine() {
+			r.readers(t, in, everyCombo)
+			nr++
+		}
+		return !r.expired()
+	})
+	for _, st := range substTargets() {
+		full := assemble(st.base)
+		for k := 1; k <= len(full); k++ {
+			if r.mine() {
+				r.readers(st.t, full[:k], everyCombo)
+				nr++
+			}
+		}
+	}
+	if r.capped {
+		c.Cap("time budget during the reader-behaviour family")
+		return
+	}
+	c.Count("reader_big_and_truncation_inputs", nr)
+	phase("readers")
 
 	// (ii-c) limited multi-value streams: every sequence of 2..3 alphabet values x every limit
 	// position x every read mode
@@ -1095,6 +1153,11 @@ func run(c *fw.Ctx) {
 			return true
 		}
 		r.input(in, targets, len(in) < 400, huge && len(in) < 100)
+		if len(in) < 100 {
+			for _, t := range readerTargets {
+				r.readers(t, in, diagCombos)
+			}
+		}
 		ng++
 		return !r.expired()
 	})
@@ -1192,7 +1255,9 @@ func main() {
 			"over a reader holding more than the limit), long-string elements (b8/b9/ba headers, lengths w+1, 255, 256, 256+n, 512+n, 65536+n for n<=w+1, full payload, 5 fillers) " +
 			"against 10 integer-like element types bare / in []T / struct{A,B T} / struct{A T; Tail []T}, the non-initial-state differential (every accepted pair is " +
 			"decoded again into destinations pre-filled from two schema-derived dirty values, via DecodeBytes and via one Stream with a reused variable; " +
-			"encoder: Encode/EncodeToReader/EncodeToBytes after another value), and encode->decode round trips over per-type value alphabets. " +
+			"encoder: Encode/EncodeToReader/EncodeToBytes after another value), the reader-behaviour dimension (3 reader kinds x 6 chunking modes incl. data+EOF and (0,nil) " +
+			"x 3 input limits = 39 combinations on every string of length <= 2, every truncation of the struct encodings and 4095..9000-byte payloads with truncations; " +
+			"a covering subset of 14 on the grammar and field-substitution inputs; verdict and value must equal DecodeBytes), and encode->decode round trips over per-type value alphabets. " +
 			"Non-trivial = the input is well-formed canonical RLP (so the outcome depends on the target type) or the decoder accepted it, or a value round trip.",
 		Assumptions: []string{
 			"verif/h/refrlp (strict reference decoder/encoder written from the property statement) is correct",
